@@ -39,7 +39,8 @@ INVS = {
 SHARDS = {"quick": {"s2": 4, "tetra": 4, "nematic": 1, "gyr": 1},
           "thorough": {"s2": 12, "tetra": 10, "nematic": 3, "gyr": 3}}
 
-KEY_S2_ZERO = "C17:s2-nan-where-g-is-zero"
+KEY_S2_UNDERFLOW = "C17:s2-nan-where-g-underflows-to-zero"      # neighbours contribute, g > 0 mathematically
+KEY_S2_NONEIGHBOUR = "C17:s2-nan-without-neighbour-inside-rmax"   # g = 0 identically, integrand = its limit 1
 KEY_TETRA_N5 = "C17:q8-tetrahedral-raises-for-N=5"
 
 
@@ -126,8 +127,12 @@ def replay_s2(chk, lib, case, tmp, tag="A"):
                 chk.extra["s2_particles_with_neighbour_exactly_at_rmax"] = chk.extra.get("s2_particles_with_neighbour_exactly_at_rmax", 0) + 1
             if cl == "zero":
                 # some bin has g = 0 exactly in floating point: g ln g is continued by its limit 0
-                g_ = _cmp(chk, "S2Definition:bins-with-g=0", small, float(res[f, i]), term, f"s2[{f}][{i}]", extra=ex,
-                          finding_key=KEY_S2_ZERO)
+                if case["contrib"][f][i]:
+                    g_ = _cmp(chk, "S2Definition:bins-where-g-underflows-to-0", small, float(res[f, i]), term, f"s2[{f}][{i}]",
+                              extra=ex, finding_key=KEY_S2_UNDERFLOW)
+                else:
+                    g_ = _cmp(chk, "S2Definition:no-neighbour-inside-rmax", small, float(res[f, i]), term, f"s2[{f}][{i}]",
+                              extra=ex, finding_key=KEY_S2_NONEIGHBOUR)
             else:
                 g_ = _cmp(chk, "S2Definition", small, float(res[f, i]), term, f"s2[{f}][{i}]", extra=ex)
             asserted += 1
@@ -371,6 +376,16 @@ def run_trace(chk, lib, recs, tmp):
 
 # --------------------------------------------------------------------------
 
+def _spread_clauses(chk):
+    """Check.finish writes at most 20 replay files: put one representative of every distinct
+    clause first so that each kind of violation is among them."""
+    seen, first, rest = set(), [], []
+    for v in chk.violations:
+        (rest if v[0] in seen else first).append(v)
+        seen.add(v[0])
+    chk.violations = first + rest
+
+
 def run(tier, replay=None):
     chk = Check("C17", tier)
     chk.rule = ("A: TLC checks contributing-neighbour exactness/symmetry, regular tetrahedron => order exactly 1, the four "
@@ -430,10 +445,11 @@ def run(tier, replay=None):
                     REPLAY[model](chk, lib, case, tmp)
         chk.exhaustive = True
         rng = random.Random(common.SEED * 7919 + 17)
-        nrec = 140 if tier == "quick" else 1500
+        nrec = 140 if tier == "quick" else 3500
         recs = gen_records(rng, nrec)
         for lo in range(0, len(recs), 350):
             run_trace(chk, lib, recs[lo:lo + 350], tmp)
+        _spread_clauses(chk)
         return chk.finish()
     finally:
         shutil.rmtree(tmp, ignore_errors=True)
